@@ -5,7 +5,7 @@ import random
 
 from . import engine
 from .common import ToolError, seed, log, NCPU
-from .engine import Session, model_check, generate, steps_of, transition_steps
+from .engine import Session, model_check, generate, steps_of, transition_steps, TransitionBatch
 from .replay import ALL
 
 REGISTRY = {}
@@ -70,22 +70,20 @@ def c04(chk, tier):
         kinds = ["zeros", "ones", "alt", "leaf"]
         for aead in (1, 2, 3):
             for bn in kinds:
-                n = [0]
+                batch = TransitionBatch(ses, exact_tags={"aeadct"}, label="seal-transition aead=%d bn=%s" % (aead, bn))
 
-                def on(tr, aead=aead, bn=bn):
+                def on(tr, aead=aead, bn=bn, batch=batch):
                     if tr["last"]["op"] != "seal":
                         return
-                    st = transition_steps(tr)
-                    ok = ses.replay(st, exact_tags={"aeadct"}, label="seal-transition aead=%d bn=%s pre=%s"
-                                    % (aead, bn, bytes(tr["last"]["pre"]["seq"]).hex()), sample=(n[0] < 1))
-                    n[0] += 1
+                    batch.add(tr)
                     l = tr["last"]
                     chk.case(("t", aead, bn, tuple(l["pre"]["seq"]), l["pre"]["ovf"], l["form"], l["kind"]))
                 generate(chk, "MC_Seq", "MC_Seq.cfg", "gen_tr_%d_%s" % (aead, bn),
                          seq_over(AeadC=aead, BnKind='"%s"' % bn, Emit=True, MaxSeals=3),
                          invariants=[], on_value=on, workers=4)
-                if n[0] == 0:
+                if batch.n == 0:
                     raise ToolError("no seal transition generated for aead %d" % aead)
+                batch.run()
         # 3. whole behaviours from sequence number 0 through the public API only
         for aead in (1, 2, 3):
             def onb(beh, aead=aead):
@@ -125,14 +123,13 @@ def c05(chk, tier):
     ses = Session(chk)
     try:
         for aead in (1, 2, 3):
-            n = [0]
+            batch = TransitionBatch(ses, label="open-transition aead=%d" % aead)
 
-            def on(tr, aead=aead):
+            def on(tr, aead=aead, batch=batch):
                 l = tr["last"]
                 if l["op"] != "open":
                     return
-                ses.replay(transition_steps(tr), label="open-transition aead=%d" % aead, sample=(n[0] < 2))
-                n[0] += 1
+                batch.add(tr)
                 d = l["plain"]["d"]
                 chk.case(("t", aead, d["k"], d["s"], tuple(l["pre"]["seq"]), l["pre"]["ovf"], l["form"], l["kind"], l["err"]))
             generate(chk, "MC_Seq", "MC_Seq.cfg", "gen_tr_%d" % aead,
@@ -140,8 +137,9 @@ def c05(chk, tier):
                               Starts='"boundary"' if thorough or aead == 1 else '"edge"',
                               MaxSeals=2, MaxOpens=2 if thorough else 1),
                      invariants=[], on_value=on, workers=4, timeout=3600)
-            if n[0] == 0:
+            if batch.n == 0:
                 raise ToolError("no open transition generated")
+            batch.run()
         # whole behaviours from position 0 through the public API only (random walks of the model)
         rnd = random.Random(seed())
         for aead in (1, 2, 3):
@@ -182,14 +180,13 @@ def c06(chk, tier):
         variants = [0, 2, 5, 6] if thorough else [2, 6]        # (pt, aad) lengths (17,0),(32,16) / (16,17),(33,1) ...
         for aead in (1, 2, 3):
             for lv in (variants if (thorough or aead == 1) else variants[:1]):
-                n = [0]
+                batch = TransitionBatch(ses, label="tamper aead=%d lenvar=%d" % (aead, lv))
 
-                def on(tr, aead=aead, lv=lv):
+                def on(tr, aead=aead, lv=lv, batch=batch):
                     l = tr["last"]
                     if l["op"] != "open":
                         return
-                    ses.replay(transition_steps(tr), label="tamper aead=%d lenvar=%d" % (aead, lv), sample=(n[0] < 1))
-                    n[0] += 1
+                    batch.add(tr)
                     d = l["plain"]["d"]
                     if d["k"] == "msg" and l["kind"] == "ok":
                         accepted_controls[0] += 1
@@ -198,6 +195,7 @@ def c06(chk, tier):
                          seq_over(AeadC=aead, Starts='"zero"', Menu='"integrity"', Emit=True, MaxSeals=2, MaxOpens=2,
                                   LenVar=lv),
                          invariants=[], on_value=on, workers=4, timeout=3600)
+                batch.run()
         if accepted_controls[0] == 0:
             raise ToolError("no positive control (accepted verbatim message) in the run")
         c06_single_shot(chk, ses, thorough)
